@@ -211,13 +211,16 @@ def run_unit(seed=None, unit=None, tier="quick", stats=None):
         sched_values = None
     big = tier == "thorough"
     info = {"pairs": [], "digest": None, "sample": None, "render": None}
-    spec = SchemaSpec(ptape, False)
+    with_directives = bool(ptape.draw(2, "sub_directives"))
+    spec = SchemaSpec(ptape, with_directives)
     schema = build_world_schema(spec)
     type_mode = TYPE_MODES[ptape.weighted((3, 2, 2), "type_mode")]
     attach(schema, type_mode)
     data = Data(ptape.draw(1 << 16, "salt"))
     world = World(schema, spec, data, type_mode)
-    gen = DocGen(ptape, spec, max_depth=4 if big else 3, budget=20 if big else 12)
+    # @defer/@stream may appear in a subscription only when disabled (if: false / false variable)
+    gen = DocGen(ptape, spec, incremental=with_directives, disabled_only=True,
+                 max_depth=4 if big else 3, budget=20 if big else 12)
     opname = gen.operation("subscription")
     text = gen.document()
     doc = parse(text)
@@ -278,11 +281,13 @@ def run_unit(seed=None, unit=None, tier="quick", stats=None):
         src_exc = make_exc(sp.exc, "SRC", ())
         create_exc = make_exc(sp.create_exc, "CREATE", ())
         seen_args = []
+        seen_paths = []
         out = {"kind": None, "responses": [], "end": None, "error": None, "waiting": None,
                "result": None}
 
         def sub_resolver(root, info_, **args):
             seen_args.append(args)
+            seen_paths.append(info_.path.as_list())
             cf = sp.create_fault
             if cf == "raise":
                 raise create_exc
@@ -347,8 +352,11 @@ def run_unit(seed=None, unit=None, tier="quick", stats=None):
             alloc.deactivate()
         bump(stats, "counts", "subscriptions")
         bump(stats, "counts", "responses", len(out["responses"]))
+        root_key = root_field.alias.value if root_field.alias else root_field.name.value
         vs = check_run(sp, out, status, models, disp, sst, src_exc, create_exc, sub_args,
-                       arg_failure, seen_args, root_included)
+                       arg_failure, seen_args, root_included, root_key, seen_paths)
+        if gen.features & {"stream", "defer"}:
+            bump(stats, "probes", "disabled_defer_or_stream_in_subscription")
         if stats is not None:
             stats["polls"] = stats.get("polls", 0) + sim.poll
             stats["externals"] = stats.get("externals", 0) + len(sim.externals)
@@ -396,7 +404,7 @@ def same_exception(a, b):
 
 
 def check_run(sp, out, status, models, disp, sst, src_exc, create_exc, sub_args, arg_failure,
-              seen_args, root_included):
+              seen_args, root_included, root_key=None, seen_paths=()):
     vs = []
     fp = {"shape": sp.shape}
     if status == "stepcap":
@@ -421,8 +429,12 @@ def check_run(sp, out, status, models, disp, sst, src_exc, create_exc, sub_args,
             return [Violation(PROP, "creation_failure_shape",
                               dict(fp, got="wrong_result", fault=str(sp.create_fault)),
                               {"result": res})]
+        if root_key is not None and errs[0].get("path") != [root_key]:
+            return [Violation(PROP, "creation_failure_shape",
+                              dict(fp, got="wrong_error_path", fault=str(sp.create_fault)),
+                              {"result": res, "expected_path": [root_key]})]
         msg = errs[0].get("message", "")
-        if sp.create_fault in ("raise", "ret_exc", "async_raise"):
+        if sp.create_fault in ("raise", "ret_exc", "async_raise") and not arg_failure:
             exc_kind = EXC_KINDS[sp.create_exc % len(EXC_KINDS)]
             if exc_kind != "EmptyStr" and "CREATE" not in msg:
                 return [Violation(PROP, "creation_failure_shape",
@@ -432,6 +444,9 @@ def check_run(sp, out, status, models, disp, sst, src_exc, create_exc, sub_args,
     if out["kind"] != "stream":
         return [Violation(PROP, "creation_failure_shape", dict(fp, got=str(out["kind"]),
                           fault="none"), {"result": out["result"]})]
+    if seen_paths and root_key is not None and seen_paths[0] != [root_key]:
+        vs.append(Violation(PROP, "subscribe_info_path", fp,
+                            {"observed": seen_paths[0], "expected": [root_key]}))
     if seen_args and sub_args is not None and not exact_equal(seen_args[0], sub_args, False):
         vs.append(Violation(PROP, "subscribe_args_mismatch", fp,
                             {"observed": repr(seen_args[0]), "expected": repr(sub_args)}))
